@@ -152,7 +152,7 @@ def c01(tier, seed):
                assumptions=["C01 is judged at positions reachable by legal play (both kings present, side not to move not in check)"])
 
 
-FAMQ = [("CASTLE", 24), ("EP", 400), ("KXK", 300), ("PROMO", 40)]
+FAMQ = [("CASTLE", 24), ("EP", 400), ("KXK", 300), ("PROMO", 40), ("DPUSH", 2)]
 FAMT = [("CASTLE", 2), ("EP", 24), ("KXK", 16), ("PROMO", 4)]
 ALLROOTS = [START, KIWI, POS3, POS4, POS5, CAST, PROM, EPR]
 
@@ -160,7 +160,7 @@ ALLROOTS = [START, KIWI, POS3, POS4, POS5, CAST, PROM, EPR]
 @check("C02")
 def c02(tier, seed):
     game_check("C02", {"C02"}, tier, seed,
-               fam_quick=[("CASTLE", 16), ("EP", 400), ("KXK", 600), ("PROMO", 24)], fam_thorough=FAMT,
+               fam_quick=[("CASTLE", 16), ("EP", 400), ("KXK", 600), ("PROMO", 24), ("DPUSH", 1)], fam_thorough=FAMT + [("DPUSH", 1)],
                mc_roots_quick=[CAST, EPR], mc_depth_quick=2, mc_roots_thorough=ALLROOTS, mc_depth_thorough=3,
                invariants=["InvSane"],
                play_quick=(14, 3, 50, 1), play_thorough=(56, 8, 120, 2),
@@ -372,6 +372,12 @@ def c17(tier, seed):
     vh = prepare()
     quick = tier == "quick"
     game.mc_chess(run, [START, EPR] if quick else ALLROOTS, 2 if quick else 3, ["InvSane", "InvFenRoundTrip"], workers=12, tag="C17")
+    # design level: the board-field scanner on every string up to 6 (7) characters over the scaled alphabet
+    r = core.tlc_mc("FenScan", "mc/FenScan_fixed6.cfg" if quick else "mc/FenScan_fixed.cfg", workers=8, tag="c17-fenscan", heap="12g")
+    if r["violated"]:
+        raise core.ToolError("FenScan.tla (repaired scanner) violates %s" % r["violated"])
+    r["output"] = ""
+    run.add_mc(r, {"W": 3, "MaxLen": 6 if quick else 7, "Strict": True})
     d = game.trace_dir("C17")
     bases = gen.read_roots() + gen.read_roots(os.path.join(core.VERIF, "lib", "fide_roots.txt"))
     if quick:
@@ -406,7 +412,25 @@ def c17(tier, seed):
                 n += 1
                 strings.add("".join(e["fen"]))
                 accepted += 1 if e["ok"] else 0
-    game.judge_traces(run, jobs, {"C17"})
+    # the same strings through the real binary: `position fen <s>` + `show`
+    import c12 as sweepmod
+    binary = core.build_bin(False)
+    rs = sorted(strings)
+    import random as _r
+    _r.Random(seed).shuffle(rs)
+    rs = rs[:6000 if quick else 60000]
+    uchunks = [rs[i::core.NPROC] for i in range(core.NPROC)]
+
+    def mku(ic):
+        i, chunk = ic
+        out = os.path.join(d, "ufen-%d.ndjson" % i)
+        with open(out, "w") as f:
+            for e in sweepmod.fen_sweep(binary, chunk):
+                f.write(json.dumps(e) + "\n")
+        return (out, "position fen <s> + show on the real binary (%d strings)" % len(chunk))
+    ujobs = core.pmap(mku, [(i, c) for i, c in enumerate(uchunks) if c])
+    run.cov["strings_sent_over_uci"] = len(rs)
+    game.judge_traces(run, jobs + ujobs, {"C17"})
     with open(jobs[0][0]) as f:
         for i, l in enumerate(f):
             if i in (0, 5, 70, 400):
@@ -444,7 +468,8 @@ def c12(tier, seed):
     pj = game.play_traces(run, vh, "C12", 14 if quick else 42, 2 if quick else 6, 40 if quick else 100, 0, seed)
     # (b) positions for the all-strings sweep: roots, FIDE-style texts, TLC family members, states of recorded games (with prefix)
     cases = [(f, []) for f in gen.read_roots() + gen.read_roots(os.path.join(core.VERIF, "lib", "fide_roots.txt"))]
-    famf = families(run, [("EP", 20000), ("CASTLE", 2000), ("PROMO", 2000)] if quick else [("EP", 1200), ("CASTLE", 80), ("PROMO", 100), ("KXK", 3000)], seed, "C12")
+    famf = families(run, [("EP", 20000), ("CASTLE", 2000), ("PROMO", 2000), ("CASTLETEXT", 12)] if quick
+                    else [("EP", 1200), ("CASTLE", 80), ("PROMO", 100), ("KXK", 3000), ("CASTLETEXT", 1)], seed, "C12")
     for f in famf:
         cases += [(l.strip(), []) for l in open(f) if l.strip()]
     hist = []
@@ -592,7 +617,19 @@ def c06(tier, seed):
             rnd.shuffle(fin)
             fin = fin[:250]
         rep = [[srch.step("startpos", srch.REPETITION_PREFIX, limit=d), srch.step("startpos", srch.REPETITION_PREFIX + ["g8f6"], limit=d)] for d in depths]
-        return [("scn", hs), ("tablehist", th), ("finishing", fin), ("repetition", rep)]
+        inter = srch.interior_histories(rnd, pos[:6 if quick else 30], 8 if quick else 40, 3 if quick else 6)
+        # perpetual-check shuttles in TLC family members: the repetition filter is armed while the side to move has
+        # exactly one legal move (the move it played two moves ago)
+        mf = families(run, [("MATES", 60 if quick else 6)], seed, "C06cyc")
+        cyc_out = os.path.join(game.TRACES, "C06", "cycles.ndjson")
+        core.sh([vh, "cycles", "--fens", mf[0], "--out", cyc_out, "--max", "60" if quick else "600"], timeout=600)
+        for l in open(cyc_out):
+            c = json.loads(l)
+            for dd in depths:
+                rep.append([srch.step(c["fen"], c["pre"], limit=dd, tag="perpetual-single-reply")])
+            rep.append([srch.step(c["fen"], c["pre"][:5], limit=2, tag="perpetual-earlier"), srch.step(c["fen"], c["pre"], limit=2, tag="perpetual-single-reply")])
+        run.cov["perpetual_scenarios"] = sum(1 for _ in open(cyc_out))
+        return [("scn", hs), ("tablehist", th), ("finishing", fin), ("repetition", rep), ("after-interrupt", inter)]
     search_check("C06", {"C06"}, tier, seed, build)
 
 
@@ -629,7 +666,8 @@ def c07(tier, seed):
             for n in idx[:: (7 if quick else 3)]:
                 sweep.append([srch.step(f, p, limit=1, tag="warm"), srch.step(f, p, limit=None, stop=n, tag="sweep-warm")])
         run.cov["stop_indices_per_position"] = {f[:30]: totals.get((f, tuple(p)), 0) for f, p in pos[:8]}
-        return [("scn", hs), ("stopsweep", sweep)]
+        inter = srch.interior_histories(rnd, pos[:8 if quick else 30], 12 if quick else 60, 3 if quick else 6)
+        return [("scn", hs), ("stopsweep", sweep), ("after-interrupt", inter)]
     search_check("C07", {"C07"}, tier, seed, build)
 
 
@@ -722,7 +760,24 @@ def c18(tier, seed):
             a, b = rnd.choice(pos), rnd.choice(pos)
             mixed.append([srch.step(a[0], a[1], limit=rnd.choice(depths)), srch.step(b[0], b[1], limit=rnd.choice(depths)),
                           srch.step(a[0], a[1], limit=rnd.choice(depths)), srch.step(a[0], a[1], limit=None, stop=rnd.randrange(50, 5000))])
-        return [("tablehist", th), ("longgames", long), ("mixed", mixed)]
+        # roots with a single legal reply whose entry was cached by an earlier search of an ancestor: forced lines of
+        # perpetual-check shuttles (TLC family members), searched ply after ply on one table; and successors of
+        # K+Q/R v K positions (many checks there leave a single reply)
+        mf = families(run, [("MATES", 60 if quick else 6)], seed, "C18cyc")
+        cyc_out = os.path.join(game.TRACES, "C18", "cycles.ndjson")
+        core.sh([vh, "cycles", "--fens", mf[0], "--out", cyc_out, "--max", "40" if quick else "400"], timeout=600)
+        forced = []
+        for l in open(cyc_out):
+            c = json.loads(l)
+            for k in (3, 4, 7, 8):
+                forced.append([srch.step(c["fen"], c["pre"][:k], limit=rnd.choice([2, 3, 4]), tag="ancestor"),
+                               srch.step(c["fen"], c["pre"][:k + 1], limit=rnd.choice([1, 2, 3]), tag="forced-reply-root"),
+                               srch.step(c["fen"], c["pre"][:k + 2] if k + 2 <= len(c["pre"]) else c["pre"], limit=2, tag="next")])
+        mates = [l.strip() for l in open(mf[0]) if l.strip()]
+        for f in rnd.sample(mates, min(len(mates), 40 if quick else 300)):
+            for j in range(4):
+                forced.append([srch.step(f, [], limit=rnd.choice([3, 4]), tag="ancestor"), srch.step(f, [], limit=rnd.choice([1, 2]), child=j, tag="successor")])
+        return [("tablehist", th), ("longgames", long), ("mixed", mixed), ("forced-lines", forced)]
     search_check_pv("C18", {"C18"}, tier, seed, build)
 
 
@@ -795,6 +850,13 @@ def c09(tier, seed):
     quick = tier == "quick"
     rnd = random.Random(seed)
     d = game.trace_dir("C09")
+    # design level: the PVS / fail-hard / depth-1 algorithm equals plain negamax on every tree of the bounded shapes
+    for shape in (["flat5", "1x4x2"] if quick else ["flat5", "4x2", "2x4", "1x4x2", "2x4x1", "flat5_v5"]):
+        r = core.tlc_mc("Pvs", "mc/Pvs_%s.cfg" % shape, workers=8, tag="c09-pvs-" + shape)
+        if r["violated"]:
+            raise core.ToolError("Pvs.tla: the transcribed algorithm violates %s on shape %s" % (r["violated"], shape))
+        r["output"] = ""
+        run.add_mc(r, {"shape": shape, "leaf_values": "-2..2" if shape.endswith("v5") else "-1..1"})
     flat, games = srch.game_positions(vh, "C09", seed, 8 if quick else 40, 120, 6)
     fams = families(run, [("KXK", 9000 if quick else 900), ("PROMO", 3000 if quick else 300), ("EP", 40000 if quick else 4000)], seed, "C09")
     fam_pos = []
@@ -808,6 +870,10 @@ def c09(tier, seed):
         for f, p in pos:
             for dd in depths:
                 cases.append({"fen": f, "pre": p, "d": dd, "orders": orders, "seed": rnd.randrange(1 << 30)})
+    # positions where mates and stalemates sit close to the root (TLC-classified K+Q/R v K rim family): the terminal rule
+    solved = srch.solver_positions(run, seed, 500 if quick else 50, False, "C09")
+    term = [f for k, v in solved.items() if k != "_finishing" for f in v]
+    add([(f, []) for f in rnd.sample(term, min(len(term), 60 if quick else 500))], [2, 3, 4], 3)
     add([(f, []) for f in srch.TINY], [1, 2, 3, 4], 4)
     add([(f, []) for f in gen.read_roots()], [1, 2], 3)
     add(rnd.sample(fam_pos, min(len(fam_pos), 120 if quick else 600)), [1, 2, 3] if quick else [1, 2, 3, 4], 3)
@@ -996,6 +1062,17 @@ def c13(tier, seed):
     grid = [json.loads(core._unescape(m)) for m in re.findall(r'^<<"GRID", "(.*)">>$', res["output"], re.M)]
     res["output"] = ""
     run.add_mc(res, {"grid_points": len(grid)})
+    # the same lemma for ALL natural clocks and increments: TLAPS proof of spec/TimeBudgetProof.tla
+    pd = os.path.join(core.BUILD, "tlaps")
+    shutil.rmtree(pd, ignore_errors=True)
+    os.makedirs(pd, exist_ok=True)
+    shutil.copy(os.path.join(core.SPEC, "TimeBudgetProof.tla"), pd)
+    pp = core.sh(["tlapm", "--threads", "8", "TimeBudgetProof.tla"], cwd=pd, check=False, timeout=600)
+    mm = re.search(r"All (\d+) obligations? proved", pp.stdout + pp.stderr)
+    if mm:
+        run.cov["tlaps_obligations_proved"] = int(mm.group(1))
+    else:
+        run.notes.append("tlapm did not prove TimeBudgetProof.tla (design-level lemma; not a verdict): " + (pp.stdout + pp.stderr)[-300:].replace("\n", " "))
     if quick:
         rnd.shuffle(grid)
         pass
@@ -1364,6 +1441,7 @@ def selftest():
     pinned = [("Uci", "mc/Uci_pinned_raise.cfg", None, "temporal"), ("Uci", "mc/Uci_pinned_clear.cfg", None, "Honoured"),
               ("Uci", "mc/Uci_pinned_game.cfg", None, "NoPanic"), ("Capacity", "mc/Capacity_pinned_depth.cfg", None, "InvStack"),
               ("Capacity", "mc/Capacity_pinned_auto.cfg", None, "InvStack"),
+              ("FenScan", "mc/FenScan_pinned5.cfg", None, "InvInRange"),
               ("MC_Engine", "mc/MC_Engine_pinned.cfg", {"ROOTS": gen.gen_roots(game.ENGINE_ROOTS[:2], "roots_selftest.json")}, "InvConsistent")]
     for mod, cfg, env, want in pinned:
         r = core.tlc_mc(mod, cfg, workers=12, env=env, tag="selftest-" + os.path.basename(cfg), heap="12g")
